@@ -48,7 +48,7 @@ from debian import debian_support as ds
 
 ID = "C19"
 LEVEL = "fault_enumeration"
-RULE = ("Hypothesis generates histories v0..vn (n=1..4, 0..7 lines per version from an 11-line pool, "
+RULE = ("Hypothesis generates histories v0..vn (n=1..4, 0..7 lines per version from a 15-line pool (incl. lines with FF, VT, GS, NEL, U+2028 inside), "
         "each version derived from the previous one by 1..2 hunks, sometimes reverting to an earlier "
         "one) x Index layout (SHA1 / SHA256 / both, 4 field orders, ignorable fields, 2 naming "
         "schemes); for every history the complete plan set is enumerated: start in {absent, each vi, "
@@ -79,8 +79,10 @@ BUDGET = {"quick": 180, "thorough": 1800}
 
 PATCH_FAULTS = ("replaced", "equivalent", "wrong", "truncated", "notgzip", "missing")
 INDEX_FAULTS = ("missing", "broken", "wrong-current", "columns", "unlisted")
-N_BROKEN = 4
-POOL = ["a\n", "b\n", "c\n", "..\n", " .\n", ". \n", "1a\n", "2,3d\n", "\n", "é\n", ".x\n"]
+N_BROKEN = 6
+POOL = ["a\n", "b\n", "c\n", "..\n", " .\n", ". \n", "1a\n", "2,3d\n", "\n", "é\n", ".x\n",
+        # characters str.splitlines() treats as line boundaries but file iteration does not: one line each
+        "x\x0cy\n", "p\u2028q\n", "v\x85w\n", "k\x1dl\x0bm\n"]
 FOREIGN_LINE = "local change\n"
 WRONG_LINE = "WRONG\n"
 NAME = "Packages"
@@ -261,7 +263,9 @@ def build_repository(root, vs, cfg, faults):
         text = ["this line is not a field\n" + text,
                 "\n" + text,
                 out[0] + "SHA1-Oops no colon\n" + "".join(out[1:]),
-                " continuation without a field\n" + text][xf["broken"]]
+                " continuation without a field\n" + text,
+                "",                      # fetched successfully, zero bytes long
+                "\n\n"][xf["broken"]]
     if "missing" not in xf:
         with open(os.path.join(pdir, "Index"), "wb") as f:
             f.write(text.encode("utf-8"))
